@@ -77,11 +77,44 @@ def createError (s : Pkg) (name : List Char) (cols : List Column) : Option ErrKi
   if !rowsValidFor (Catalog.validationTable false) (catalogRowsValidation name cols) then some .invalidInput else
   none
 
+/-- `check_catalog_room`: the catalog table (if it is registered: `_Validation` is not while it
+is itself being created) has room for `n` more rows and holds no row under `name` yet -/
+def catalogRoomOne (s : Pkg) (catalog key : List Char) (name : List Char) (n : Nat) : Res Unit :=
+  match s.findTable catalog with
+  | none => .ok ()
+  | some t =>
+    match s.loadRows t with
+    | .err k => .err k
+    | .panic w => .panic w
+    | .ok rows =>
+      if rows.length + n > Gen.maxTableRows then .err .invalidInput
+      else
+        -- the second query names the key column (`_Validation` is an ordinary table of the file:
+        -- a damaged file may define it without that column)
+        match t.indexOfColumn key with
+        | none => .err .invalidInput
+        | some i =>
+          if rows.any (fun r => (rowValues s.pool r).getD i .null == .str name) then .err .alreadyExists
+          else .ok ()
+
+/-- the three of them, in the order of the code -/
+def catalogRoom (s : Pkg) (name : List Char) (cols : List Column) : Res Unit :=
+  match catalogRoomOne s Gen.nameColumns.toList "Table".toList name cols.length with
+  | .ok () =>
+    match catalogRoomOne s Gen.nameTables.toList "Name".toList name 1 with
+    | .ok () => catalogRoomOne s Gen.nameValidation.toList "Table".toList name cols.length
+    | r => r
+  | r => r
+
 /-- `create_table` -/
 def createTable (s : Pkg) (name : List Char) (cols : List Column) : Pkg × Res Unit :=
   match createError s name cols with
   | some k => (s, .err k)
   | none =>
+    match catalogRoom s name cols with
+    | .err k => (s, .err k)
+    | .panic w => (s, .panic w)
+    | .ok () =>
     match insertRows s Gen.nameColumns.toList (catalogRowsColumns name cols) with
     | (s1, .ok ()) =>
       match insertRows s1 Gen.nameTables.toList [[.str name]] with
